@@ -14,6 +14,7 @@ import (
 	"os/exec"
 	"path/filepath"
 	"runtime"
+	"runtime/pprof"
 	"sort"
 	"strings"
 	"time"
@@ -32,16 +33,28 @@ type TierSpec struct {
 	PathBudget  int            `json:"path_budget"`
 	TimeBudgetS int            `json:"time_budget_s"`
 	QueryMs     int            `json:"query_ms"`
+	FreshMs     int            `json:"fresh_ms"`
 	Entries     []string       `json:"entries"` // optional subset/superset of entries for this tier
 }
 
 type EntrySpec struct {
+	pkg   int
 	Func  string   `json:"func"`
 	Reach []string `json:"reach"`
 	What  string   `json:"what"`
+	Subst map[string]string `json:"subst"`
+	Noop  []string `json:"noop"`
+}
+
+type PkgSpec struct {
+	Package string      `json:"package"`
+	PkgDir  string      `json:"pkg_dir"`
+	Files   []string    `json:"files"`
+	Entries []EntrySpec `json:"entries"`
 }
 
 type Spec struct {
+	Packages    []PkgSpec           `json:"packages"`
 	Property    string              `json:"property"`
 	Package     string              `json:"package"`
 	PkgDir      string              `json:"pkg_dir"`
@@ -85,17 +98,28 @@ var (
 	flagNoNative = flag.Bool("no-native", false, "skip native replays (debug only: nothing is reported as violation)")
 	flagEntry   = flag.String("entry", "", "run only this entry (debug)")
 	flagReplay  = flag.String("replay", "", "replay a draw file natively and report")
-	flagSolver  = flag.String("solver", "z3", "z3|z3-new|cvc5")
+	flagQms     = flag.Int("qms", 0, "override per-query timeout (ms)")
+	flagProf    = flag.String("cpuprofile", "", "write cpu profile")
+	flagSolver  = flag.String("solver", "z3-new", "z3|z3-new|cvc5")
 )
 
 func main() {
 	flag.Parse()
 	goEnv()
+	if *flagProf != "" {
+		f, _ := os.Create(*flagProf)
+		pprof.StartCPUProfile(f)
+		defer pprof.StopCPUProfile()
+	}
 	if *flagSpec == "" {
 		fmt.Fprintln(os.Stderr, "usage: gosym -spec harness/<id>/spec.json [-tier quick|thorough]")
 		os.Exit(2)
 	}
-	os.Exit(run())
+	rc := run()
+	if *flagProf != "" {
+		pprof.StopCPUProfile()
+	}
+	os.Exit(rc)
 }
 
 func goEnv() []string {
@@ -139,19 +163,22 @@ func run() int {
 	os.RemoveAll(outDir)
 	os.MkdirAll(outDir, 0o755)
 
-	// ----- overlay: harness files + runtime package + generated test file -----
+	// ----- overlay: harness files + runtime package + generated test files -----
+	if len(spec.Packages) == 0 {
+		spec.Packages = []PkgSpec{{Package: spec.Package, PkgDir: spec.PkgDir, Files: spec.Files, Entries: spec.Entries}}
+	}
 	repl := map[string]string{}
+	testRepl := map[string]string{}
 	rtSrc := filepath.Join(*flagVerif, "rt", "verifrt", "verifrt.go")
 	repl[filepath.Join(*flagRepo, "internal", "verifrt", "verifrt.go")] = rtSrc
-	pkgDirAbs := filepath.Join(*flagRepo, spec.PkgDir)
-	for _, f := range spec.Files {
-		repl[filepath.Join(pkgDirAbs, "zz_verif_"+strings.ToLower(spec.Property)+"_"+filepath.Base(f))] = filepath.Join(hdir, f)
-	}
-	// harness-side stub packages: directories under the harness dir named pkg_<relpath with __>
-	pkgName := ""
-	{
-		// read package clause of the first harness file
-		b, err := os.ReadFile(filepath.Join(hdir, spec.Files[0]))
+	var entries []EntrySpec
+	for pi, ps := range spec.Packages {
+		pkgDirAbs := filepath.Join(*flagRepo, ps.PkgDir)
+		for _, f := range ps.Files {
+			repl[filepath.Join(pkgDirAbs, "zz_verif_"+strings.ToLower(spec.Property)+"_"+filepath.Base(f))] = filepath.Join(hdir, f)
+		}
+		pkgName := ""
+		b, err := os.ReadFile(filepath.Join(hdir, ps.Files[0]))
 		if err != nil {
 			fatal(err)
 		}
@@ -161,37 +188,36 @@ func run() int {
 				break
 			}
 		}
-	}
-	var entries []EntrySpec
-	for _, e := range spec.Entries {
-		if *flagEntry != "" && e.Func != *flagEntry {
-			continue
+		var tsb strings.Builder
+		fmt.Fprintf(&tsb, "package %s\n\nimport (\n\t\"testing\"\n\t\"%s\"\n)\n\n", pkgName, rtPkg)
+		for _, e := range ps.Entries {
+			fmt.Fprintf(&tsb, "func TestVerifEntry_%s(t *testing.T) { verifrt.RunNative(t, %q, %s) }\n", e.Func, e.Func, e.Func)
 		}
-		if len(tier.Entries) > 0 {
-			found := false
-			for _, n := range tier.Entries {
-				if n == e.Func {
-					found = true
-				}
-			}
-			if !found {
+		testFile := filepath.Join(outDir, fmt.Sprintf("zz_verif_%d_test.go", pi))
+		os.WriteFile(testFile, []byte(tsb.String()), 0o644)
+		testRepl[filepath.Join(pkgDirAbs, "zz_verif_"+strings.ToLower(spec.Property)+"_test.go")] = testFile
+		for _, e := range ps.Entries {
+			e.pkg = pi
+			if *flagEntry != "" && e.Func != *flagEntry {
 				continue
 			}
+			if len(tier.Entries) > 0 {
+				found := false
+				for _, n := range tier.Entries {
+					if n == e.Func {
+						found = true
+					}
+				}
+				if !found {
+					continue
+				}
+			}
+			entries = append(entries, e)
 		}
-		entries = append(entries, e)
 	}
-	var tsb strings.Builder
-	fmt.Fprintf(&tsb, "package %s\n\nimport (\n\t\"testing\"\n\t\"%s\"\n)\n\n", pkgName, rtPkg)
-	for _, e := range spec.Entries {
-		fmt.Fprintf(&tsb, "func TestVerifEntry_%s(t *testing.T) { verifrt.RunNative(t, %q, %s) }\n", e.Func, e.Func, e.Func)
-	}
-	testFile := filepath.Join(outDir, "zz_verif_test.go")
-	os.WriteFile(testFile, []byte(tsb.String()), 0o644)
-	testRepl := map[string]string{}
 	for k, v := range repl {
 		testRepl[k] = v
 	}
-	testRepl[filepath.Join(pkgDirAbs, "zz_verif_"+strings.ToLower(spec.Property)+"_test.go")] = testFile
 	ovJSON, _ := json.MarshalIndent(map[string]interface{}{"Replace": testRepl}, "", " ")
 	ovFile := filepath.Join(outDir, "overlay.json")
 	os.WriteFile(ovFile, ovJSON, 0o644)
@@ -215,7 +241,10 @@ func run() int {
 		Env:     goEnv(),
 		Overlay: overlay,
 	}
-	patterns := append([]string{spec.Package, rtPkg}, spec.Extra...)
+	patterns := append([]string{rtPkg}, spec.Extra...)
+	for _, ps := range spec.Packages {
+		patterns = append(patterns, ps.Package)
+	}
 	tl := time.Now()
 	pkgs, err := packages.Load(cfg, patterns...)
 	if err != nil {
@@ -240,18 +269,25 @@ func run() int {
 	prog.Build()
 	loadDur := time.Since(tl)
 
-	var target *ssa.Package
+	targets := make([]*ssa.Package, len(spec.Packages))
 	var rt *ssa.Package
 	for _, p := range prog.AllPackages() {
-		if p.Pkg.Path() == spec.Package {
-			target = p
+		for i, ps := range spec.Packages {
+			if p.Pkg.Path() == ps.Package {
+				targets[i] = p
+			}
 		}
 		if p.Pkg.Path() == rtPkg {
 			rt = p
 		}
 	}
-	if target == nil || rt == nil {
-		fatal(fmt.Errorf("package %s or verifrt not found after load", spec.Package))
+	for i, t := range targets {
+		if t == nil {
+			fatal(fmt.Errorf("package %s not found after load", spec.Packages[i].Package))
+		}
+	}
+	if rt == nil {
+		fatal(fmt.Errorf("verifrt not found after load"))
 	}
 
 	sh := &sym.Shared{
@@ -263,6 +299,13 @@ func run() int {
 		InstrBudget: tier.InstrBudget,
 		Bounds:      tier.Bounds,
 		NowBase:     time.Now().Unix(),
+	}
+	if tier.TimeBudgetS > 0 {
+		sh.Deadline = t0.Add(time.Duration(tier.TimeBudgetS) * time.Second * time.Duration(len(entries)))
+	}
+	sh.FreshMs = tier.FreshMs
+	if sh.FreshMs == 0 {
+		sh.FreshMs = 60000
 	}
 	if sh.LoopBound == 0 {
 		sh.LoopBound = 256
@@ -316,17 +359,43 @@ func run() int {
 	if lim.QueryMs == 0 {
 		lim.QueryMs = 10000
 	}
+	if *flagQms > 0 {
+		lim.QueryMs = *flagQms
+	}
 	if tier.TimeBudgetS > 0 {
 		lim.TimeBudget = time.Duration(tier.TimeBudgetS) * time.Second
 	}
 
 	var results []*sym.EntryResult
 	for _, e := range entries {
-		fn := target.Func(e.Func)
+		fn := targets[e.pkg].Func(e.Func)
 		if fn == nil {
-			fatal(fmt.Errorf("entry %s not found in %s", e.Func, spec.Package))
+			fatal(fmt.Errorf("entry %s not found in %s", e.Func, spec.Packages[e.pkg].Package))
 		}
-		r := sym.Explore(sh, fn, e.Func, lim)
+		esh := sh
+		if len(e.Subst) > 0 || len(e.Noop) > 0 {
+			cp := *sh
+			cp.Subst = map[string]*ssa.Function{}
+			for k, v := range sh.Subst {
+				cp.Subst[k] = v
+			}
+			for from, to := range e.Subst {
+				f := findFunc(prog, to)
+				if f == nil {
+					fatal(fmt.Errorf("subst target %s not found", to))
+				}
+				cp.Subst[from] = f
+			}
+			cp.Noop = map[string]bool{}
+			for k, v := range sh.Noop {
+				cp.Noop[k] = v
+			}
+			for _, n := range e.Noop {
+				cp.Noop[n] = true
+			}
+			esh = cp.Clone()
+		}
+		r := sym.Explore(esh, fn, e.Func, lim)
 		results = append(results, r)
 		if *flagVerbose {
 			fmt.Fprintf(os.Stderr, "[%s] paths=%d filtered=%d panics=%d oblig=%d/%d viol=%d inconcl=%d queries=%d wall=%s\n", e.Func, r.Paths, r.Filtered, r.PanicPaths, r.Discharged, r.Obligations, len(r.Violations), len(r.Inconcl), r.Solver.Queries, r.Wall.Round(time.Millisecond))
@@ -421,7 +490,7 @@ func run() int {
 		switch df.Kind {
 		case "cex":
 			if *flagNoNative {
-				inconclusive = append(inconclusive, fmt.Sprintf("assert=%s reason=not-replayed file=%s", df.AssertID, files[i]))
+				inconclusive = append(inconclusive, fmt.Sprintf("assert=%s reason=not-replayed file=%s %s", df.AssertID, files[i], oneLine(df.Msg, 300)))
 				continue
 			}
 			repro := false
@@ -438,7 +507,7 @@ func run() int {
 			if repro {
 				confirmed++
 				lines = append(lines, fmt.Sprintf("VIOLATION property=%s replay=%s", spec.Property, files[i]))
-				lines = append(lines, fmt.Sprintf("  assert=%s entry=%s %s", df.AssertID, df.Entry, df.Msg))
+				lines = append(lines, fmt.Sprintf("  assert=%s entry=%s %s", df.AssertID, df.Entry, oneLine(df.Msg, 300)))
 				exit = 1
 			} else {
 				inconclusive = append(inconclusive, fmt.Sprintf("assert=%s reason=replay-mismatch file=%s native=%+v", df.AssertID, files[i], nr))
@@ -581,7 +650,6 @@ func defaultInitAllow() map[string]bool {
 	m["errors"] = false
 	m["sync"] = false
 	m["sync/atomic"] = false
-	m["time"] = false
 	m["context"] = false
 	return m
 }
@@ -594,7 +662,11 @@ var defaultNoop = []string{
 }
 
 func runNative(spec *Spec, ovFile string, files []string) (string, error) {
-	cmd := exec.Command("go", "test", "-vet=off", "-count=1", "-run", "^TestVerifEntry_", "-overlay", ovFile, "-timeout", "20m", "./"+spec.PkgDir)
+	args := []string{"test", "-vet=off", "-count=1", "-run", "^TestVerifEntry_", "-overlay", ovFile, "-timeout", "20m"}
+	for _, ps := range spec.Packages {
+		args = append(args, "./"+ps.PkgDir)
+	}
+	cmd := exec.Command("go", args...)
 	cmd.Dir = *flagRepo
 	cmd.Env = append(goEnv(), "VERIF_DRAWS="+strings.Join(files, ":"))
 	var out bytes.Buffer
